@@ -257,6 +257,22 @@ def exactly_taken_guard(body, origin_bb, next_bb):
         return "the element taken is never looked at (only whether there is one)"
     if not later:
         return None
+    # only sound for ONE element: with two elements taken and looked at, which of them came first is hash order again
+    for other in nexts:
+        if other == next_bb:
+            continue
+        for i in sorted(body.live_blocks()):
+            for st in body.blocks[i]["stmts"]:
+                if st["k"] != "assign" or st["rv"]["k"] == "discriminant":
+                    continue
+                rv = st["rv"]
+                ops = [rv.get(k) for k in ("op", "l", "r", "x") if isinstance(rv.get(k), dict)] + [f["op"] for f in rv.get("fields", [])]
+                if rv["k"] in ("ref", "copyforderef") and "place" in rv:
+                    ops.append({"k": "copy", "place": rv["place"]})
+                for o_ in ops:
+                    if o_.get("k") in ("copy", "move") and o_["place"]["p"] and any(
+                            r.kind == "call" and r.site == other and r.fields[:1] == ("#Some",) and len(r.fields) >= 2 for r in prov(body, o_)):
+                        return None
     for i in readers:
         ok = False
         for a in mir.guards_at(body, i):
@@ -277,6 +293,8 @@ def _family_key(k):
     if len(parts) < 3:
         return k
     parts[1] = re.sub(r"::(iter_mut|values_mut|values|keys|into_iter|drain|into_values|into_keys)$", "::iter", parts[1])
+    # the same container reached through a wrapper of its iterator (Amount::iter over self.values)
+    parts[1] = "*::" + parts[1].rsplit("::", 1)[-1]
     parts = [p for p in parts if not p.startswith("via ")]
     return re.sub(r"#\d+$", "", "|".join(parts))
 
